@@ -63,7 +63,14 @@ def check(ctx, prop: str | None = None):
     for m in load_index():
         if m["property"] != prop:
             continue
-        f = resolve(ctx.repo, m["target"])
+        try:
+            f = resolve(ctx.repo, m["target"])
+        except AnalysisError:
+            if _inlined_into_callers(ctx, m["target"]):
+                ctx.ob(m["rule"], m["target"], True, "this private helper has been inlined into its callers, and they agree with their reviewed models with this helper's model inlined", key="model inlined")
+                n += 1
+                continue
+            raise
         params = _codec.decode_params() if m.get("data_is_bytes") else None
         try:
             _codec.agree(ctx, m["rule"], f, model_text(m["target"]), {c: m["sentence"] for c in m["components"]}, params=params, keep=set(m.get("keep", ())), key_prefix="model ", ignore=tuple(m.get("ignore", ())))
@@ -75,6 +82,40 @@ def check(ctx, prop: str | None = None):
     if unknown and all(o["ok"] for o in ctx.obligations):
         raise AnalysisError(unknown[0] if len(unknown) == 1 else f"{unknown[0]} (+{len(unknown) - 1} more functions)")
     return n
+
+
+def _inlined_into_callers(ctx, target: str) -> bool:
+    """A modelled private helper that no longer exists: true iff some modelled function of the same class calls it in its
+    model, and every such function still has the summary of its model once the helper's model is inlined there."""
+    if "." not in target or ":" in target or "/" in target:
+        return False
+    cname, helper = target.rsplit(".", 1)
+    if not helper.startswith("_") or not ctx.repo.has_cls(cname) or ctx.repo.cls(cname).find_method(helper) is not None:
+        return False
+    callers = {}
+    for m in load_index():
+        if m["target"].startswith(cname + ".") and helper in m.get("keep", ()) and m["target"] not in callers:
+            callers[m["target"]] = m
+    checked = 0
+    for t, m in callers.items():
+        try:
+            f = resolve(ctx.repo, t)
+        except AnalysisError:
+            continue
+        text = model_text(t)
+        if helper not in _codec.vanished_helpers(f, set(m.get("keep", ())), text):
+            continue
+        params = _codec.decode_params() if m.get("data_is_bytes") else None
+        keep = set(m.get("keep", ()))
+        try:
+            found = _codec.signature(_codec.paths_of(ctx, f, params, keep))
+            want = _codec.signature(_codec.reference_paths_inlined(ctx, f, text, params, keep, _codec.vanished_helpers(f, keep, text)))
+        except Exception:  # pylint: disable=broad-except
+            return False
+        if any(found[c] != want[c] for c in m["components"]):
+            return False
+        checked += 1
+    return checked > 0
 
 
 def agrees(ctx, target: str, prop: str | None = None) -> bool:
